@@ -1,5 +1,6 @@
 import CacheVerif.Props.C11
 import CacheVerif.Proofs.LeafBits
+import CacheVerif.Proofs.DeepLoad
 /-!
 # C10 — keys are matched by Go equality for every comparable key type
 
@@ -66,5 +67,71 @@ def collOps : List (MOp Nat Nat) :=
 set_option maxRecDepth 8000 in
 example : ((run mapOfVariant collEnv (new mapOfVariant collEnv 0 false) collOps).2.map (·.out)) =
     [.unit, .unit, .unit, .unit, .unit, .unit, .unit, .val 60 true, .unit, .val 20 true, .val 0 false] := by decide
+
+/-! ### the lookup path of `MapOf`, printed from the source: the packed word only pre-selects, `==` decides
+
+`tools/go2deep -table` prints `(*MapOf[K,V]).Load` on every run; `Deep/TInterp.lean` gives the Go subset its
+(sequential) meaning; `Proofs/Words.lean` and `Proofs/DeepLoad.lean` carry the proofs. -/
+
+omit [Inhabited V] in
+/-- **the SWAR-filtered search is the key search, for every hash-byte function**: over any chain of buckets whose
+`meta` words say what their entries demand, walking the marked bytes of `markZeroBytes(meta ^ broadcast(h2))` in
+`firstMarkedByteIndex` order and comparing keys there finds exactly the first slot whose key `==` the argument -
+false positives of the byte trick are rejected by the comparison, there are no false negatives, the iteration ends -/
+theorem C10_word_search_is_key_search (hk : K → BitVec 8) (key : K) (c : List (Model.Words.BucketOf K V))
+    (hrep : ∀ b ∈ c, Model.Words.RepB hk b) :
+    Model.Words.searchChain key (Gen.broadcast (hk key)) c = lookup key (Model.Words.flat c) :=
+  Proofs.Words.searchChain_eq hk key c hrep
+
+omit [Inhabited V] in
+/-- **the text of `MapOf.Load` computes that search**: for every heap, key and sufficient loop budget the interpreter on
+the printed body returns `(v, true)` when the word-filtered search of the root bucket's chain finds `v`, and the zero
+value and `false` otherwise (no stuck state: no index out of range, no nil dereference) -/
+theorem C10_source_load_is_word_search (fuel : Nat) (hf : 8 ≤ fuel) (h : Deep.T.Heap K V) (key : K)
+    (c : List (Model.Words.BucketOf K V))
+    (hc : h.chains[(Proofs.DeepLoad.bidxOf h key).toNat]? = some c) (hne : c ≠ []) (hfuel : c.length ≤ fuel)
+    (hlen : ∀ b ∈ c, b.entries.length = 5) :
+    Deep.T.call fuel h Gen.Deep.T_MapOf_Load [.key key] =
+      some (match Model.Words.searchChain key (Proofs.DeepLoad.h2wOf h key) c with
+        | some v => [.val v, .bool true]
+        | none => [.zeroV, .bool false]) :=
+  Proofs.DeepLoad.load_eq_search fuel hf h key c hc hne hfuel hlen
+
+/-- **the text of `MapOf.Load` is the `load` step of the table model M3**, whose refinement of the builtin map is
+`C10_eq_only`: power-of-two table, non-empty chains, `meta` words representing their entries; any hasher, seed, contents -/
+theorem C10_source_load_is_model_load (fuel : Nat) (hf : 8 ≤ fuel) (h : Deep.T.Heap K V) (m : St K V) (env : Env K)
+    (key : K) (p : Nat) (hp : p < 64) (hlen : h.chains.length = 2 ^ p)
+    (htbl : m.tbl.chains = h.chains.map Model.Words.flat) (hseed : m.tbl.seed = h.seed) (hhash : env.hash = h.hasher)
+    (hne : ∀ c ∈ h.chains, c ≠ []) (hfuel : ∀ c ∈ h.chains, c.length ≤ fuel)
+    (hrep : ∀ c ∈ h.chains, ∀ b ∈ c, Model.Words.RepB (Proofs.DeepLoad.hkOf h) b) :
+    Deep.T.call fuel h Gen.Deep.T_MapOf_Load [.key key] =
+      some (match (step mapOfVariant env m (.load key)).2.out with
+        | .val v true => [.val v, .bool true]
+        | _ => [.zeroV, .bool false]) :=
+  Proofs.DeepLoad.load_is_model_load fuel hf h m env key p hp hlen htbl hseed hhash hne hfuel hrep
+
+/-! Non-vacuity: a two-chain heap in which keys 1 and 257 share bucket, slot byte (`h2 = 1`) and chain, key 515 sits in
+an overflow bucket, key 129 has the same `h2` again but lives in the other chain (absent).  The hypotheses of
+`C10_source_load_is_model_load` hold of it, and the printed `Load` answers by key. -/
+def exHeap : Deep.T.Heap Nat Nat :=
+  { chains := [[⟨0x8080808080800101#64, [some (257, 70), some (1, 10), none, none, none]⟩,
+                ⟨0x8080808080800380#64, [none, some (515, 30), none, none, none]⟩],
+               [⟨Gen.defaultMeta, [none, none, none, none, none]⟩]],
+    seed := 0#64, hasher := fun k _ => BitVec.ofNat 64 k }
+
+example : exHeap.chains.length = 2 ^ 1 ∧ (∀ c ∈ exHeap.chains, c ≠ []) ∧ (∀ c ∈ exHeap.chains, c.length ≤ 8) := by
+  decide
+
+example : ∀ c ∈ exHeap.chains, ∀ b ∈ c, Model.Words.RepB (Proofs.DeepLoad.hkOf exHeap) b := by
+  simp only [exHeap, List.mem_cons, List.mem_nil_iff, or_false, forall_eq_or_imp, forall_eq]
+  refine ⟨⟨?_, ?_⟩, ?_⟩ <;> refine ⟨by decide, ?_⟩ <;> intro i hi <;>
+    (obtain rfl | rfl | rfl | rfl | rfl : i = 0 ∨ i = 1 ∨ i = 2 ∨ i = 3 ∨ i = 4 := by
+      simp only [Gen.entriesPerMapOfBucket] at hi; omega) <;> decide
+
+example : Deep.T.call 8 exHeap Gen.Deep.T_MapOf_Load [.key 1] = some [.val 10, .bool true] := by rfl
+example : Deep.T.call 8 exHeap Gen.Deep.T_MapOf_Load [.key 257] = some [.val 70, .bool true] := by rfl
+example : Deep.T.call 8 exHeap Gen.Deep.T_MapOf_Load [.key 515] = some [.val 30, .bool true] := by rfl
+example : Deep.T.call 8 exHeap Gen.Deep.T_MapOf_Load [.key 129] = some [.zeroV, .bool false] := by rfl
+example : Deep.T.call 8 exHeap Gen.Deep.T_MapOf_Load [.key 2] = some [.zeroV, .bool false] := by rfl
 
 end Props.C10
